@@ -48,8 +48,7 @@ def run_configs(prop, mod, rep):
             rep2.rule("anchor", "the semantic anchors the rules are written against exist")
             rep2.violation("anchor", "anchor-missing|%s" % e, "anchor missing in configuration %s: %s" % (cfg, e))
         except WalkLimit as e:
-            rep2.rule("shape", "the analysed functions have a shape the engines can decide")
-            rep2.violation("shape", "unknown-shape|%s" % e, "unknown shape in configuration %s: %s" % (cfg, e))
+            rep2.undecided.append({"rules": ["(rest of the property's rules)"], "function": mod.__name__, "why": str(e)})
         ob = sum(r["obligations"] for r in rep2.rules.values())
         di = sum(r["discharged"] for r in rep2.rules.values())
         extra = []
@@ -64,7 +63,8 @@ def run_configs(prop, mod, rep):
             rep.violations.append(v)
             extra.append(v["key"])
         rep.states += rep2.states
-        out[cfg] = {"obligations": ob, "discharged": di, "violations_only_in_this_configuration": extra}
+        out[cfg] = {"obligations": ob, "discharged": di, "violations_only_in_this_configuration": extra,
+                    "undecided": rep2.undecided}
         for a in rep2.assumptions:
             if a not in rep.assumptions:
                 rep.assumptions.append(a)
